@@ -6,8 +6,9 @@ from .common import bump
 ID = "C02"
 AREA = "c02"
 LEAN_PROPS = "Litep2pVerif.Props.C02"
-THEOREMS = ["read_stream_eq", "read_no_oob", "write_total", "write_stream_eq", "write_read_roundtrip",
-            "tamper_detected", "tamper_instances", "real_params_ok", "term_model_laws"]
+THEOREMS = ["term_model_laws", "real_params_ok", "write_total_old_constant_witness", "write_total", "write_stream_eq",
+            "read_no_oob", "read_stream_eq_partial", "tamper_detected_partial", "tamper_instances",
+            "write_read_roundtrip_partial"]
 CONSTS = ["MAX_NOISE_MSG_LEN", "NOISE_EXTRA_ENCRYPT_SPACE", "MAX_READ_AHEAD_FACTOR", "MAX_WRITE_BUFFER_SIZE",
           "SNOW_MAXMSGLEN", "SNOW_TAGLEN"]
 MANIFEST = {
